@@ -99,7 +99,7 @@ func (m *model) live(svc string) map[string]bool {
 	}
 	for b := range m.conns {
 		if svcOf[b] == svc {
-			out[b] = true
+			out[tagOf(b)] = true
 		}
 	}
 	return out
@@ -285,13 +285,9 @@ func (w *Worker) apply(mux *larking.Mux, op Op) (regErr error, dropped bool, pi 
 		case "RegLocal":
 			regErr = larking.VerifRegisterService(mux, vschema.ServiceDesc(w.env.SD["A"], tagged{"local"}), struct{}{})
 		case "RegConn":
-			regErr = mux.RegisterConn(ctx, w.env.Back[op.B].CC)
+			regErr = mux.RegisterConn(ctx, w.env.conn(op.B))
 		case "DropConn":
-			cc := w.env.Unknown
-			if op.B != "unknown" {
-				cc = w.env.Back[op.B].CC
-			}
-			dropped = mux.DropConn(ctx, cc)
+			dropped = mux.DropConn(ctx, w.env.conn(op.B))
 		}
 	})
 	return
@@ -341,6 +337,7 @@ func (w *Worker) Run(h History, draws int) *Outcome {
 					}
 				default:
 					m.ever[prov] = true
+					m.ever[tagOf(prov)] = true
 					if prov == "local" {
 						m.local = true
 					} else {
